@@ -127,9 +127,9 @@ func TestVerifC33(t *testing.T) {
 			}
 			stickyIdx := tp.Choose(4) == 0
 			if stickyIdx {
-				// one index file cannot be downloaded at all (a backend error, not corruption); a pack file that cannot
+				// one index file cannot be downloaded (or cannot be removed) at all (a backend error, not corruption); a pack file that cannot
 				// be downloaded is simply not readable in that run and restic skips it like a damaged one
-				f := fault{Kind: "sticky", Op: "Load", Type: backend.IndexFile, At: 1 + tp.Choose(2)}
+				f := fault{Kind: "sticky", Op: []string{"Load", "Remove"}[tp.Choose(2)], Type: backend.IndexFile, At: 1 + tp.Choose(2)}
 				w.arm(pr, f)
 				where += ", " + f.String()
 			}
